@@ -5,9 +5,12 @@
 package msgs
 
 import (
+	"bytes"
 	"encoding/binary"
 	"fmt"
 	"io"
+	"io/ioutil"
+	"math"
 	"strings"
 )
 
@@ -103,10 +106,10 @@ func (dtm *DataTransmissionMessage) Unmarshal(r io.Reader) error {
 	}
 
 	// TODO: Transfer Extension Items
+	// The announced lengths are the peer's claim. Neither of them sizes an allocation: the unsupported extension
+	// items are skipped and the data is read incrementally, so memory only grows with bytes that have arrived.
 	if transferExtLen > 0 {
-		transferExtBuff := make([]byte, transferExtLen)
-
-		if _, err := io.ReadFull(r, transferExtBuff); err != nil {
+		if _, err := io.CopyN(ioutil.Discard, r, int64(transferExtLen)); err != nil {
 			return err
 		}
 	}
@@ -114,13 +117,16 @@ func (dtm *DataTransmissionMessage) Unmarshal(r io.Reader) error {
 	var dataLen uint64
 	if err := binary.Read(r, binary.BigEndian, &dataLen); err != nil {
 		return err
+	} else if dataLen > math.MaxInt64 {
+		return fmt.Errorf("XFER_SEGMENT's data length %d is too large", dataLen)
 	} else if dataLen > 0 {
-		dtm.Data = make([]byte, dataLen)
-		if _, err := io.ReadFull(r, dtm.Data); err != nil {
+		var data bytes.Buffer
+		if n, err := io.CopyN(&data, r, int64(dataLen)); err == io.EOF && n > 0 {
+			return io.ErrUnexpectedEOF
+		} else if err != nil {
 			return err
-		} else if dataLen != uint64(len(dtm.Data)) {
-			return fmt.Errorf("XFER_SEGMENT's data length should be %d, got %d bytes", dataLen, len(dtm.Data))
 		}
+		dtm.Data = data.Bytes()
 	}
 
 	return nil
